@@ -147,7 +147,7 @@ func (h *hist) initialFields(typeName string) (map[string]jsonapi.Attr, map[stri
 			r.FromType = h.name()
 		}
 
-		if r.ToType == r.FromType && r.ToName == r.FromName {
+		if r.ToType == r.FromType && r.ToName == r.FromName && h.prop != "C15" {
 			r.ToName = ""
 		}
 
@@ -182,6 +182,7 @@ func copyRels(m map[string]jsonapi.Rel) map[string]jsonapi.Rel {
 func (h *hist) step() (v *core.Violation, aborted bool) {
 	t, s, m := h.t, h.s, h.m
 	before := content(s)
+	beforeExact := contentExact(s)
 
 	var (
 		err      error
@@ -292,7 +293,11 @@ func (h *hist) step() (v *core.Violation, aborted bool) {
 			r.FromType = h.name()
 		}
 
-		if r.ToType == r.FromType && r.ToName == r.FromName {
+		if h.prop == "C15" && t.Bool(1, 8) {
+			// a relationship that is its own inverse (friends <-> friends): reciprocated by itself
+			r.FromType, r.ToType, r.ToName = tn, tn, r.FromName
+			h.st.Inc("probe:state-own-inverse")
+		} else if r.ToType == r.FromType && r.ToName == r.FromName {
 			r.ToName = ""
 		}
 
@@ -413,13 +418,15 @@ func (h *hist) step() (v *core.Violation, aborted bool) {
 	}
 
 	after := content(s)
+	afterExact := contentExact(s)
 	t.Logf("%s -> err=%v", opName, err)
 
 	if err != nil {
 		h.st.Inc("probe:edit-error-returned")
 		h.st.Inc("fault:failing-edit (error returned by an edit; the only fault this engine has: the library does no I/O)")
 
-		if after != before {
+		if afterExact != beforeExact {
+			before, after = beforeExact, afterExact
 			t.Logf("  before: %s", before)
 			t.Logf("  after:  %s", after)
 
@@ -455,7 +462,8 @@ func (h *hist) step() (v *core.Violation, aborted bool) {
 	if isRemove && absent {
 		h.st.Inc("probe:remove-absent")
 
-		if after != before && c14 {
+		if afterExact != beforeExact && c14 {
+			before, after = beforeExact, afterExact
 			v := h.viol("remove-absent-noop", site, input, "%s removed something absent yet the schema changed\n    before: %s\n    after:  %s", opName, before, after)
 			if h.st.Fail(v) {
 				return v, true
